@@ -187,6 +187,15 @@ def sweep_docs(fmt, quick):
                 for B in (b"{#U\x01U\x01bSU\x01x", b"{#U\x02U\x01bTU\x01ci\x05", b"[#U\x02SU\x01xi\x01", b"{U\x01bZ}", b"[[]T]"):
                     docs.append(list(b"[" + A + B + b"]"))
                     docs.append(list(b"{U\x01pU\x01qU\x01r".replace(b"U\x01q", A, 1).replace(b"U\x01r", b"U\x01r" + B, 1) + b"}"))
+        # typed containers of the payload-free types: their members need no input beyond the name - which may be empty, and last
+        for tb in (b"T", b"F", b"Z"):
+            for body in (b"#U\x01U\x00", b"#U\x02U\x01aU\x00", b"#U\x02U\x00U\x01a", b"#I\x00\x01U\x00", b"#U\x03U\x00U\x01bU\x00", b"#U\x01I\x00\x00", b"#U\x00"):
+                o = b"{$" + tb + body
+                docs += [list(o), list(b"[" + o + b"]"), list(b"[" + o + o + b"T]"), list(b"{U\x01k" + o + b"}"), list(b"[#U\x01" + o), list(b"{#U\x01U\x00" + o)]
+            for n in (0, 1, 2, 3):
+                a = b"[$" + tb + b"#U" + bytes([n])
+                docs += [list(a), list(b"[" + a + b"]"), list(b"[#U\x02" + a + a), list(b"{U\x00" + a + b"}")]
+        docs += [list(t) for t in (b"{#U\x01U\x00T", b"{#U\x02U\x01aTU\x00F", b"{U\x00Z}", b"{#U\x01U\x00[#U\x00", b"{#U\x01U\x00{#U\x00")]
         # payloads that start with the byte value of a marker, where no marker is expected (typed containers, texts)
         size = dict(i=1, U=1, C=1, I=2, l=4, L=8, d=4, D=8)
         for m in b"NZTF[]{}#$iUIlLdDCSH":
@@ -274,6 +283,15 @@ def conformance_cases(ctx, prop, fmt, rows):
             e = ("parse", "write", "decbytes")[(n // 6) % 3]
             cases.append(case(prop, "parse", fmt, doc=r["doc"], entry=e, sub=dict(plainvis=True), origin="consumer implements Visitor only",
                               **sched_variants(ctx, r["doc"], e, rnd)))
+    # every proper prefix of a valid document (the input ends there): whatever the reference automaton says about the
+    # prefix - as a rule: incomplete, to be refused by every entry point that knows where the input ends
+    for n, r in enumerate(good):
+        d = r["doc"]
+        if n % 3 == 0 and 2 <= len(d) <= 28:
+            for cut in range(1, len(d)):
+                e = ("parse", "reader", "decbytes", "write", "decreader", "parsestr")[(n // 3 + cut) % 6]
+                kw = sched_variants(ctx, d[:cut], e, rnd)
+                cases.append(case(prop, "parse", fmt, doc=d[:cut], entry=e, origin="prefix of a valid document", **kw))
     for n, doc in enumerate(deep_docs(fmt)):
         cases.append(case(prop, "parse", fmt, doc=doc, origin="deep nesting"))
         e = other[n % 4]
@@ -288,6 +306,8 @@ def conformance_cases(ctx, prop, fmt, rows):
         cases.append(case(prop, "parse", fmt, doc=doc, origin="length sweep"))
         if n % 5 == 0:
             cases.append(case(prop, "parse", fmt, doc=doc, sub=dict(plainvis=True), origin="length sweep, consumer implements Visitor only"))
+        if n % 3 == 1:
+            cases.append(case(prop, "parse", fmt, doc=doc, entry="parsestr", origin="length sweep via ParseString (read-only text)"))
         if n % 7 == 0:
             cases.append(case(prop, "parse", fmt, doc=doc, sub=dict(prelude=[PRELUDE_BAD[fmt][n % len(PRELUDE_BAD[fmt])]]), origin="length sweep after a refused one-shot parse"))
         e = other[n % 4]
@@ -500,7 +520,7 @@ def c03(ctx):
             doc = r["doc"]
             # every input through the one-shot Parse and one more entry point (rotating); the thorough tier enumerates
             # a longer bound (millions of inputs), so it keeps the same rotation instead of all five entries
-            ents = ["parse", ENTRIES[1 + n % 4]]
+            ents = ["parse", ENTRIES[1 + n % 4]] + (["parsestr"] if n % 3 == 0 else [])     # ParseString: the text lies in read-only memory
             for e in ents:
                 cases.append(case("C03", "parse", fmt, doc=doc, entry=e, measure=(e in ("parse", "decreader")),
                                   origin="Gen-any %s" % r["class"], **after_error(e), **sched_variants(ctx, doc, e, rnd)))
@@ -509,10 +529,16 @@ def c03(ctx):
         valid = valid[:150 if ctx.quick else 1500] + ([list(t) for t in ESCAPE_RICH] if fmt == "json" else [])
         muts = mutations(ctx, fmt, valid, rnd, 6 if ctx.quick else 20) + [(d, "hugelen") for d in huge_length_docs(fmt)]
         for n, (doc, how) in enumerate(muts):
-            ents = [ENTRIES[n % 5]] if ctx.quick and how != "hugelen" else ENTRIES
+            ents = [(ENTRIES + ["parsestr"])[n % 6]] if ctx.quick and how != "hugelen" else ENTRIES + ["parsestr"]
             for e in ents:
                 cases.append(case("C03", "parse", fmt, doc=doc, entry=e, measure=True, origin="mutation " + how,
                                   **after_error(e), **sched_variants(ctx, doc, e, rnd)))
+        # (d) ParseString on texts in READ-ONLY memory (a caller's constant): every document of the length sweep (escapes, ill-formed
+        # UTF-8 and long tokens make a parser copy or rewrite) and of the adjacent-token family, also cut off
+        for n, doc in enumerate(sweep_docs(fmt, True) + token_pair_docs(fmt) + ([list(t) for t in ESCAPE_RICH] if fmt == "json" else [])):
+            cases.append(case("C03", "parse", fmt, doc=doc, entry="parsestr", origin="read-only text"))
+            if n % 3 == 0 and len(doc) > 4:
+                cases.append(case("C03", "parse", fmt, doc=doc[: len(doc) - 1 - n % 3], entry="parsestr", origin="read-only text, cut off"))
         # (c) tokens longer than the parsers' internal buffers whose end arrives in a later write / read than their head
         longdocs = [d for d in sweep_docs(fmt, True) if 58 <= len(d) <= 320]
         if fmt != "json":
@@ -524,6 +550,7 @@ def c03(ctx):
             for cuts in ([L - 1], [L - 2], [L // 2, L - 1], [1, L - 3]):
                 cases.append(case("C03", "parse", fmt, doc=doc, entry="write", cuts=cuts, measure=(n % 4 == 0), origin="long token, late end", **after_error("write")))
             cases.append(case("C03", "parse", fmt, doc=doc, entry="reader", cuts=[L - 1 - n % 3], eofwith=n % 2 == 0, origin="long token, late end"))
+            cases.append(case("C03", "parse", fmt, doc=doc, entry="parsestr", origin="long token, read-only text"))
             cases.append(case("C03", "parse", fmt, doc=doc, entry="decreader", buf=(16, 64, 7)[n % 3], plan=[L - 1 - n % 2, 1, 1, 1], eofwith=n % 2 == 1, origin="long token, late end"))
             for cut in (L - 1, L // 2):     # ... and the same cut off there
                 cases.append(case("C03", "parse", fmt, doc=doc[:cut], entry=("write", "reader", "decreader")[n % 3], cuts=[cut // 2], buf=16, plan=[cut // 2, cut],
@@ -533,7 +560,8 @@ def c03(ctx):
     failed, n = core.tlc_validate(ctx, "TraceCodec", tf)
     return run.decide(
         ctx, "TraceCodec", cases, tf, failed, n, level_note="",
-        rule="(c) documents of the length sweep (texts, member names and number literals of 58-320 bytes, i.e. beyond the 64-byte literal buffers) "
+        rule="(d) ParseString on texts placed in READ-ONLY memory (mmap + mprotect, the text ending at the end of the mapping): a parser that "
+             "writes into or reads beyond its input faults; (c) documents of the length sweep (texts, member names and number literals of 58-320 bytes, i.e. beyond the 64-byte literal buffers) "
              "written / read so that the token's end arrives after its head was buffered, and cut off at those places; "
              "(a) TLC enumerates ALL byte strings up to MaxLen over the per-format alphabet of boundary bytes (Gen* mode any; exhaustive "
              "within that bound) with their classification by the reference automaton; (b) seeded mutations of valid documents from the "
@@ -694,8 +722,10 @@ def c08(ctx):
         docs += sweep_docs(src, True)       # strings/names of every length 0..71 (+boundaries), marker-valued lengths and payloads, 64-bit literals
         for doc in docs:
             for tgt in ("json", "ubjson", "cborl"):
-                entry = ["parse", "reader", "write"][n % 3]
+                entry = ["parse", "reader", "write", "decreader", "decbytes"][n % 5]
                 kw = sched_variants(ctx, doc, entry, rnd)
+                if entry in ("reader", "decreader"):
+                    kw["eofwith"] = (n // 5) % 2 == 0          # the reader hands over its last data together with io.EOF / in a read of its own
                 opts = dict(ALL_OPTS[n % 8]) if tgt == "json" else dict(OPTS0)
                 cases.append(case("C08", "transcode", src, tgt=tgt, doc=doc, entry=entry, opts=opts, origin="Gen %s" % src, **kw))
                 n += 1
@@ -707,7 +737,8 @@ def c08(ctx):
         rule="valid source documents enumerated by TLC from each format automaton (incl. shapes only foreign encoders produce: non-minimal "
              "CBOR widths, byte strings, UBJSON typed containers/H/C, JSON escapes and 64-bit boundary numbers, strings and names of every "
              "length 0..71 and around 128/256), single and as concatenated "
-             "streams of 2-3 container documents, x 3 targets, fed through Parse / ParseReader with short reads / bytewise Write into the "
+             "streams of 2-3 container documents, x 3 targets, fed through Parse / ParseReader with short reads / bytewise Write / pulled "
+             "through both pull decoders (scripted readers that deliver their last data with or before io.EOF) into the "
              "real target encoder; TraceCodec decodes source and target bytes with the two reference automata and compares the values "
              "under the target's representation rules. Distinct = distinct (document, pair, entry, chunking); non-trivial = at least 3 bytes.",
         nontrivial=lambda c: len(c["doc"]) >= 3,
@@ -800,6 +831,14 @@ def c16(ctx):
             kw = sched_variants(ctx, r["doc"], entry, rnd) if entry == "reader" else {}
             kw.pop("eofwith", None)
             cases.append(case("C16", "fault", fmt, doc=r["doc"], entry=entry, sub=dict(target="parser"), origin="Gen", **kw))
+        # ... and the documents whose tokens take the parsers' other delivery paths: texts and member names of every length
+        # around the internal buffers (plain, escaped, ill-formed, multi-byte), adjacent tokens, marker-valued bytes, deep nesting
+        extra = sweep_docs(fmt, True)[:: 2 if ctx.quick else 1] + token_pair_docs(fmt) + [d for d in deep_docs(fmt) if len(d) <= 200]
+        for j, doc in enumerate(extra):
+            entry = ["parse", "reader", "decbytes"][j % 3]
+            kw = sched_variants(ctx, doc, entry, rnd) if entry == "reader" else {}
+            kw.pop("eofwith", None)
+            cases.append(case("C16", "fault", fmt, doc=doc, entry=entry, sub=dict(target="parser"), origin="length sweep / adjacent tokens / deep nesting", **kw))
     # Fold as a producer: TLC-enumerated Go programs into a failing visitor
     rows = gen_gotypes(ctx, quick=True)
     rnd.shuffle(rows)
@@ -817,7 +856,8 @@ def c16(ctx):
     return run.decide(
         ctx, "TraceCodec", cases, tf, failed, nv, level_note="",
         rule="fault enumeration driven by the model's cases: TLC-enumerated event streams x 3 encoders over a sink that fails from its "
-             "k-th write on, for EVERY k = 1..W (W measured by a fault-free run); TLC-enumerated valid documents x 3 parsers "
+             "k-th write on, for EVERY k = 1..W (W measured by a fault-free run); TLC-enumerated valid documents and the documents of the length sweep "
+             "(texts and names of every length around the internal buffers, plain / escaped / ill-formed), adjacent tokens and deep nesting x 3 parsers "
              "(Parse / ParseReader with short reads / Decoder.Next) into a visitor that fails at its k-th event for EVERY k = 1..E; "
              "extended-event streams into EnsureExtVisitor over a failing plain visitor likewise; TLC-enumerated Go programs (GenGoType) "
              "folded into a visitor failing at every event. TraceCodec!FaultVerdict requires the "
@@ -1251,8 +1291,48 @@ def fold_cases(ctx, prop, rows=None):
     return cases
 
 
+def afterfail_cases(prop):
+    """One iterator folds a value that fails HALF-WAY (an unsupported member met after the enclosing object - inlined,
+    plain, below a pointer / slice / map - was opened), then a supported value of the same static type."""
+    def Fd(name, t, opts=()):
+        return dict(name=name, tname="", opts=list(opts), t=t)
+
+    def Iv(x):
+        return dict(k="int", ty="int", v=streams.canon(x))
+    CH = dict(k="named", id="chan")
+    OPQ = dict(k="opaque")
+    IFT = dict(k="iface")
+    # (the unsupported value sits behind an interface: the static types compile, the Fold fails when it gets there)
+    BADV = dict(k="iface", dyn=[CH], e=[OPQ])
+    badS = (dict(k="struct", f=[Fd("A", dict(k="int")), Fd("C", IFT)]), dict(k="struct", f=[Iv(1), BADV]))
+    badM = (dict(k="map", e=[IFT]), dict(k="map", m=[dict(key=list(b"c"), val=BADV)]))
+    badN = (dict(k="struct", f=[Fd("A", dict(k="int")), Fd("In", dict(k="struct", f=[Fd("B", dict(k="int")), Fd("C", IFT)]))]),
+            dict(k="struct", f=[Iv(1), dict(k="struct", f=[Iv(2), BADV])]))
+    goodS = (dict(k="struct", f=[Fd("A", dict(k="int")), Fd("D", dict(k="string"))]), dict(k="struct", f=[Iv(5), dict(k="str", ty="string", v=list(b"ok"))]))
+    goodM = (dict(k="map", e=[dict(k="int")]), dict(k="map", m=[dict(key=list(b"g"), val=Iv(6))]))
+
+    def ifv(d):
+        return dict(k="iface", dyn=[d[0]], e=[d[1]])
+    holders = [lambda d: (dict(k="struct", f=[Fd("P", dict(k="int")), Fd("In", IFT, ["inline"]), Fd("Q", dict(k="int"))]), dict(k="struct", f=[Iv(7), ifv(d), Iv(8)])),
+               lambda d: (dict(k="struct", f=[Fd("In", IFT, ["squash"])]), dict(k="struct", f=[ifv(d)])),
+               lambda d: (dict(k="struct", f=[Fd("A", IFT), Fd("Q", dict(k="int"))]), dict(k="struct", f=[ifv(d), Iv(8)])),
+               lambda d: (dict(k="slice", e=[IFT]), dict(k="slice", e=[ifv(goodS), ifv(d)])),
+               lambda d: (dict(k="map", e=[IFT]), dict(k="map", m=[dict(key=list(b"k"), val=ifv(d))])),
+               lambda d: (dict(k="struct", f=[Fd("W", dict(k="struct", f=[Fd("In", IFT, ["inline"])])), Fd("Q", dict(k="int"))]),
+                          dict(k="struct", f=[dict(k="struct", f=[ifv(d)]), Iv(8)])),
+               lambda d: (IFT, ifv(d))]
+    cases = []
+    for mk in holders:
+        for bad in (badS, badM, badN):
+            for good in (goodS, goodM):
+                (Tb, Vb), (Tg, Vg) = mk(bad), mk(good)
+                for hist in ([dict(T=Tb, V=Vb)], [dict(T=Tg, V=Vg), dict(T=Tb, V=Vb)], [dict(T=Tb, V=Vb), dict(T=Tb, V=Vb)]):
+                    cases.append(case(prop, "goreuse", "go", sub=dict(component="iter", history=hist, T=Tg, V=Vg, afterfail=True), origin="iterator used again after a Fold that failed half-way"))
+    return cases
+
+
 def c12(ctx):
-    cases = number(fold_cases(ctx, "C12"))
+    cases = number(fold_cases(ctx, "C12") + afterfail_cases("C12"))
     tf, st = core.run_harness(ctx, cases)
     failed, nv = core.tlc_validate(ctx, "TraceCodec", tf)
     return run.decide(
@@ -1265,6 +1345,7 @@ def c12(ctx):
              "value with SFGoType!FoldSem (the documented tag rules). Distinct = distinct (type, value, top); non-trivial = struct types.",
         nontrivial=lambda c: c["sub"]["T"]["k"] == "struct",
         assumptions=TCB + ["the value descriptor is the projection of the actual Go value by reflection (harness describe())",
+                           "iterators used again after a Fold that failed half-way (kind goreuse, sub.afterfail) are compared with a new iterator, whose events FoldVerdict judges",
                            "grey zone admitted both ways: omitempty on a non-nil pointer/interface whose target is empty"])
 
 
@@ -1324,6 +1405,53 @@ def c11(ctx):
                 cases.append(case("C11", "gort", "go", sub=dict(T=dict(k="iface"), V=deep(d, kind), via=via), origin="deep %s %d" % (kind, d)))
                 ST = dict(k="struct", f=[dict(name="I", tname="", opts=[], t=dict(k="iface")), dict(name="N", tname="", opts=[], t=dict(k="int"))])
                 cases.append(case("C11", "gort", "go", sub=dict(T=ST, V=dict(k="struct", f=[deep(d, kind), dict(k="int", ty="int", v=streams.canon(3))]), via=via), origin="deep %s %d in field" % (kind, d)))
+    # the announced member count: structs that mix fields which are never reported (unexported, "-", omit) with fields whose
+    # contribution depends on the value (omitempty, inlined structs and maps of 0-2 members), in every order
+    def Fd(name, t, opts=(), tname=""):
+        return dict(name=name, tname=tname, opts=list(opts), t=t)
+
+    def Iv(x):
+        return dict(k="int", ty="int", v=streams.canon(x))
+
+    def Sv(x):
+        return dict(k="str", ty="string", v=list(x))
+    IN2 = dict(k="struct", f=[Fd("X", dict(k="int")), Fd("Y", dict(k="int"))])
+    unrep = [(Fd("hidden", dict(k="int")), Iv(9)), (Fd("D", dict(k="int"), ["dash"]), Iv(9)), (Fd("O", dict(k="int"), ["omit"]), Iv(9))]
+    vary = [(Fd("E", dict(k="string"), ["omitempty"]), Sv(b"")), (Fd("E", dict(k="string"), ["omitempty"]), Sv(b"e")),
+            (Fd("E", dict(k="slice", e=[dict(k="int")]), ["omitempty"]), dict(k="slice", nil=True)),
+            (Fd("E", dict(k="ptr", e=[dict(k="int")]), ["omitempty"]), dict(k="ptr", nil=True)),
+            (Fd("In", IN2, ["inline"]), dict(k="struct", f=[Iv(1), Iv(2)])),
+            (Fd("In", dict(k="map", e=[dict(k="int")]), ["inline"]), dict(k="map", m=[])),
+            (Fd("In", dict(k="map", e=[dict(k="int")]), ["squash"]), dict(k="map", m=[dict(key=list(b"m1"), val=Iv(1)), dict(key=list(b"m2"), val=Iv(2))]))]
+    plain = (Fd("P", dict(k="int")), Iv(5))
+    for u in unrep:
+        for w in vary:
+            for order in itertools.permutations([u, w, plain]):
+                T = dict(k="struct", f=[f for f, _ in order])
+                V = dict(k="struct", f=[v for _, v in order])
+                for via in ("direct", "json", "ubjson", "cborl"):
+                    cases.append(case("C11", "gort", "go", sub=dict(T=T, V=V, via=via), origin="announced member count"))
+            for order in ([plain, u, (Fd("Q", dict(k="int")), Iv(6)), w], [u, u2 := (Fd("hid2", dict(k="string")), Sv(b"h")), w], [w, u, u2, plain]):
+                T = dict(k="struct", f=[f for f, _ in order])
+                V = dict(k="struct", f=[v for _, v in order])
+                for via in ("ubjson", "cborl", "direct"):
+                    cases.append(case("C11", "gort", "go", sub=dict(T=T, V=V, via=via), origin="announced member count"))
+    # ... with a member BEFORE and a sibling object AFTER the nested child at every level (structs fold in field order, so the
+    # order of the events is fixed; below interface{} they arrive as generic maps)
+    LT = dict(k="struct", f=[dict(name="A", tname="", opts=[], t=dict(k="int")), dict(name="N", tname="", opts=[], t=dict(k="iface")),
+                             dict(name="Z", tname="", opts=[], t=dict(k="iface"))])
+
+    def ordered(d):
+        x = dict(k="iface", dyn=[dict(k="int")], e=[dict(k="int", ty="int", v=streams.canon(d))])
+        for j in range(d):
+            sib = dict(k="iface", dyn=[dict(k="map", e=[dict(k="iface")])],
+                       e=[dict(k="map", m=[dict(key=list(b"y%d" % j), val=dict(k="iface", dyn=[dict(k="int")], e=[dict(k="int", ty="int", v=streams.canon(100 + j))]))])])
+            x = dict(k="iface", dyn=[LT], e=[dict(k="struct", f=[dict(k="int", ty="int", v=streams.canon(j)), x, sib])])
+        return x
+    for d in range(1, 10):
+        for via in ("direct", "json", "ubjson", "cborl"):
+            cases.append(case("C11", "gort", "go", sub=dict(T=dict(k="iface"), V=ordered(d), via=via), origin="deep ordered %d" % d))
+            cases.append(case("C11", "gort", "go", sub=dict(T=dict(k="slice", e=[dict(k="iface")]), V=dict(k="slice", e=[ordered(d), ordered(d)]), via=via), origin="deep ordered %d twice" % d))
     # member names recurring across sibling maps, with the unfolder's key cache smaller than / equal to / larger than the name set
     def I(x):
         return dict(k="int", ty="int", v=streams.canon(x))
@@ -1758,6 +1886,20 @@ def c15(ctx):
                     if ctx.quick and (cut + L + n) % 2:
                         continue
                     cases.append(case("C15", "alias", fmt, doc=doc, cuts=[cut], sub=dict(target=("ifc", "map")[n], follow=follow, gc=False), origin="boundary length %d" % L))
+    # objects nested beyond the unfolder's pre-allocated scratch slots (4), with a member before and a sibling object after the
+    # nested child at every level - in the document and again in the follow-up document
+    def nest(d, tag):
+        x = {"leaf" + tag: "v" + tag}
+        for j in range(d):
+            x = {"a%d" % j: tag + "-%d" % j, "n": x, "z%d" % j: {"y": tag + "z%d" % j}}
+        return x
+    for d in (3, 4, 5, 6, 9):
+        for fmt in ("json", "ubjson", "cborl"):
+            doc, follow = enc_doc(fmt, nest(d, "first")), enc_doc(fmt, nest(d, "other"))
+            for j, cuts in enumerate(([], [len(doc) // 2], sorted(rnd.sample(range(1, len(doc)), 4)))):
+                cases.append(case("C15", "alias", fmt, doc=doc, cuts=cuts, sub=dict(target="ifc", follow=follow, gc=False, twice=(j == 1)), origin="objects nested %d deep" % d))
+            docs2 = enc_doc(fmt, [nest(d, "p"), nest(d, "q")])
+            cases.append(case("C15", "alias", fmt, doc=docs2, cuts=[], sub=dict(target="ifc", follow=enc_doc(fmt, [nest(d, "r")]), gc=False), origin="objects nested %d deep, twice" % d))
     # byte strings / typed arrays longer than what the unfolder allocates up front for an announced length (4096 elements),
     # several per document and again in the follow-up document: what was stored must not be collected in reused memory
     def blob(L, off, cls=bytes):
